@@ -219,14 +219,19 @@ PROPS['C08'] = dict(level='proof', units=['channel'], trusted=_T,
     explanation='From every state satisfying the invariant (including suspended outer operations) send/recv terminate without panic; frozen environment complete, interference bounded by K failed CAS.')
 
 # --------------------------------------------------------------------------------------------
+UNITS['half_lock_priv'] = dict(
+    name='half_lock_priv', engine='kani', crate='signal-hook-registry',
+    inject=[('signal-hook-registry/src/half_lock.rs', K + 'half_lock.rs'), ('signal-hook-registry/src/half_lock.rs', K + 'half_lock_priv.rs', 'verif_kani_priv')], flags=FFI,
+    harnesses={
+        'c01_update_seen': dict(props=['C01', 'C18']),
+        'c01_write_barrier_k3': dict(props=['C01', 'C18'], unwind_obl='C18.BARRIER-BOUNDED'),
+        'c18_quiescent': dict(props=['C18', 'C01'], unwind_obl='C18.QUIESCENT'),
+    })
 UNITS['half_lock'] = dict(
     name='half_lock', engine='kani', crate='signal-hook-registry', inject=[('signal-hook-registry/src/half_lock.rs', K + 'half_lock.rs')], flags=FFI,
     scan=[K + 'libc_model.rs'],
     harnesses={
         'c01_read': dict(props=['C01', 'C03']),
-        'c01_update_seen': dict(props=['C01', 'C18']),
-        'c01_write_barrier_k3': dict(props=['C01', 'C18'], unwind_obl='C18.BARRIER-BOUNDED'),
-        'c18_quiescent': dict(props=['C18', 'C01'], unwind_obl='C18.QUIESCENT'),
         'c01_store': dict(props=['C01', 'C18'], unwind_obl='C18.BARRIER-BOUNDED'),
         'c01_write_guard': dict(props=['C01', 'C18']),
     })
@@ -257,7 +262,7 @@ obl('C18.MUTEX-RELEASED', FH + 'WriteGuard drop glue', 'mutex released on guard 
 PROPS['C01'] = dict(level='proof', units=['half_lock', 'registry'], trusted=L('A1', 'A2', 'A7', 'A8', 'A9', 'A10'),
     technique='trace contracts on the real half_lock.rs under an environment that havocs counters and generation before every access, Kani/CBMC',
     explanation='Reader protocol order, barrier post-condition (both slots seen zero after the swap), swap-barrier-free order and free-exactly-once are proved on the real code for arbitrary counter/generation values; the whole-program quiescence theorem follows by the L-RCU argument in DESIGN.md.')
-PROPS['C18'] = dict(level='other', units=['half_lock', 'native_half_lock', 'registry'], trusted=L('A1', 'A2', 'A7', 'A8', 'A10') + ['fairness-based liveness (every fair execution terminates) is not decidable by contracts; proved are the obligations the termination argument rests on'],
+PROPS['C18'] = dict(level='other', units=['half_lock', 'half_lock_priv', 'native_half_lock', 'registry'], trusted=L('A1', 'A2', 'A7', 'A8', 'A10') + ['fairness-based liveness (every fair execution terminates) is not decidable by contracts; proved are the obligations the termination argument rests on'],
     technique='progress obligations (sticky seen flags, single flip before waiting, poison tolerance, quiescent termination) as contracts on the real half_lock.rs, Kani/CBMC',
     explanation='Contracts prove the safety-shaped obligations that the termination argument needs; termination itself is proved for a quiescent environment (complete) and for <= K non-zero answers (bounded).')
 
@@ -421,6 +426,8 @@ obl('C05.REMOVE-ONLY-IT', FR + 'unregister, unregister_signal', 'whole-view post
 obl('C05.REG-OK', FR + 'register_unchecked_impl', 'occupied: cannot fail; vacant: Ok when both sigaction calls succeed', kind='bounded(state shape)')
 obl('C05.REG-APPEND', FR + 'register_unchecked_impl', 'whole-view postcondition: view[sig] gains exactly the new id; nothing else changes', kind='bounded(state shape)')
 obl('C02.COPY-UNDER-MUTEX', FR + 'unregister, unregister_signal, register_unchecked_impl', 'mutators never enter a reader section: the copy they modify is read under the writer mutex', kind='bounded(state shape)', also=['C01', 'C05'])
+obl('C02.ONE-SNAPSHOT', FR + 'handler', 'exactly two reader sections per delivery: one on race_fallback, one on data', kind='bounded(state shape)')
+obl('C04.FALLBACK-UNDER-DATA-LOCK', FR + 'register_unchecked_impl', 'the fallback store happens while the data write mutex is held', kind='bounded(state shape)')
 obl('C02.ID-MONO', FR + 'register_unchecked_impl + handler', 'the newest action runs after all older ones of its signal', kind='bounded(state shape)')
 obl('C02.ORDER', FR + 'handler', 'log of a delivery == actions of that signal in the snapshot, each once, in id order', kind='bounded(state shape)')
 obl('C02.ONLY-SIG', FR + 'handler', 'actions of other signals never run', kind='bounded(state shape)')
@@ -484,7 +491,7 @@ PROPS['C09']['trusted'] = PROPS['C09']['trusted'] + ['SignalsInfo::wait / Foreve
 
 UNITS['lemma_rcu'] = dict(name='lemma_rcu', engine='verus', module='verus_unit', entry='run_lemma', source='/verif/verus/l_rcu.rs', obligations=['C01.L-RCU'], min_verified=5)
 obl('C01.L-RCU', 'composition lemma over C01.R-ORDER / R-SLOT / R-DEC / S-ORDER / W-ZERO / S-FREE-ONCE', 'transition system whose steps are those trace contracts (any number of readers, any slot choice, SC interleaving, counter abstracted by the set of announced readers): in every reachable state no guard refers to a released snapshot and the current pointer is not released (inductive invariant, machine-checked)')
-PROPS['C01']['units'] = ['half_lock', 'registry', 'lemma_rcu']
+PROPS['C01']['units'] = ['half_lock', 'half_lock_priv', 'registry', 'lemma_rcu']
 PROPS['C01']['trusted'] = L('A1', 'A2', 'A7', 'A9', 'A10') + ['the lemma L-RCU is machine-checked (Verus) at the level of the contracts; that the step relations of the lemma are exactly the contracts Kani proves is by reading (A8 narrowed to this link)', 'the reader counter is abstracted by the set of announced readers (inc/dec pairing proved: C01.R-SLOT, C01.R-DEC)']
 
 UNITS['lemma_pipe'] = dict(name='lemma_pipe', engine='verus', module='verus_unit', entry='run_lemma', source='/verif/verus/l_pipe.rs', obligations=['C09.L-PIPE'], min_verified=5)
